@@ -89,6 +89,11 @@ def dec(w):
         return core.cfloat(w['c'])
     return {dec_key(k): dec(v) for k, v in w['o']}
 
+def relclose(a, b, tol=1e-12):
+    """agreement RELATIVE to the magnitude of the value itself: |a − b| ≤ tol · max(|a|, |b|), no absolute floor — a 0.4 pA
+    source is judged as strictly as a 400 A one"""
+    return core.rclose(a, b, 0.0, tol)
+
 def same(a, b, tol=1e-12):
     """wire trees equal: exactly, except complex leaves within `tol` relative"""
     if type(a) != type(b):
@@ -100,11 +105,11 @@ def same(a, b, tol=1e-12):
             return False
         if 'n' in a:
             # exact, except for real/imaginary parts of a polar value split again by dictify (1e-12)
-            return Fraction(a['n']) == Fraction(b['n']) or core.close(float(Fraction(a['n'])), float(Fraction(b['n'])), 0.0, tol)
+            return Fraction(a['n']) == Fraction(b['n']) or relclose(float(Fraction(a['n'])), float(Fraction(b['n'])), tol)
         if 'c' in a:
             if core.unqc(a['c']) == core.unqc(b['c']):
                 return True
-            return core.close(core.cfloat(a['c']), core.cfloat(b['c']), 0.0, tol)
+            return relclose(core.cfloat(a['c']), core.cfloat(b['c']), tol)
         return len(a['o']) == len(b['o']) and all(x[0] == y[0] and same(x[1], y[1], tol) for x, y in zip(a['o'], b['o']))
     return a == b
 
@@ -179,16 +184,24 @@ def num(rng, positive=False):
     else: v = rng.choice([0, 0.0, 1, 0.1, 1e-9, 1e9, 3.141592653589793])
     return v
 
+SI_MAGNITUDES = [10.0 ** k for k in range(-15, 13)] + [2.0 ** k for k in (-50, -40, -30, -20, -10, 10, 20, 30, 40)]
+
+def si_value(rng):
+    """small / large SI magnitudes (1e-15 … 1e12; exact decades and powers of two, times a short mantissa)"""
+    return rng.choice(SI_MAGNITUDES) * rng.choice([1.0, 1.0, 2.5, 0.4, 250.0, 4.7]) * rng.choice([1, 1, 1, -1])
+
 def cx_notation(rng, notation=None):
     """a complex number in one of the documented notations; returns (tree, kind)"""
     notation = notation or rng.choice(['cart', 'polar'])
     if notation == 'cart':
         d = {'real': num(rng), 'imag': num(rng)}
+        if rng.random() < 0.25: d = {'real': si_value(rng), 'imag': rng.choice([0.0, si_value(rng)])}
         if rng.random() < 0.3:
             d = {'imag': d['imag'], 'real': d['real']}
     else:
         ph = rng.choice([math.radians(p) for p in PHASES_DEG] + [num(rng), 0.5, -2.25, 1, 3])
         d = {'abs': num(rng, positive=rng.random() < 0.8), 'phase': ph}
+        if rng.random() < 0.4: d['abs'] = si_value(rng)
         if rng.random() < 0.3:
             d = {'phase': d['phase'], 'abs': d['abs']}
     return d, notation
@@ -482,7 +495,7 @@ def check_to_complex(ctx, out, z, deg, origin='gen'):
     if ctx.driver is not None:
         m = ctx.driver.call('c17_to_complex', z=before, deg=bool(deg), trig=trig_for(z))
         ok = res_same(m['res'], kind, core.qc(val) if kind == 'ok' else val,
-                      lambda a, b: core.unqc(a) == core.unqc(b) or core.close(core.cfloat(a), core.cfloat(b), 0.0, 1e-12))
+                      lambda a, b: core.unqc(a) == core.unqc(b) or relclose(core.cfloat(a), core.cfloat(b), 1e-12))
         if not ok or not same(m['post'], after):
             out.disagree('to_complex', dict(z=z, degree=deg), dict(res=(kind, str(val)), post=after), m)
         out.traces_validated += 1
@@ -501,9 +514,32 @@ def check_to_complex(ctx, out, z, deg, origin='gen'):
             want = z['abs'] * cmath.rect(1.0, math.radians(z['phase']) if deg else z['phase'])
         if want is not None:
             out.nontrivial(('to_complex', 'cart' if 'real' in z else 'polar', bool(deg)))
-            if not core.close(val, want, 0.0, 1e-12):
+            if not relclose(val, want, 1e-12):
                 out.spec_fail(dict(op='to_complex', symptom='wrong_value', degree=bool(deg), notation='cart' if 'real' in z else 'polar'),
                               'to_complex does not return the denoted number', dict(z=z, degree=deg), impl=str(val), spec=str(want))
+
+def check_notations_agree(ctx, out, a, deg):
+    """one number written three ways — polar with the phase in degrees, polar in radians, Cartesian — loads as one number,
+    judged relative to its own magnitude; also through load_network (an impedance entry per notation)"""
+    from CircuitCalculator.Network import loaders as L
+    out.evaluations += 1
+    out.count('notations_agree')
+    rad = math.radians(deg)
+    want = a * cmath.rect(1.0, rad)
+    forms = {'polar_deg': lambda: L.to_complex({'abs': a, 'phase': deg}, True), 'polar_rad': lambda: L.to_complex({'abs': a, 'phase': rad}),
+             'cartesian': lambda: L.to_complex({'real': want.real, 'imag': want.imag})}
+    def entry(z): return [{'type': 'impedance', 'id': 'Z', 'N1': '1', 'N2': '0', 'Z': z}]
+    forms['load_network_polar'] = lambda: L.load_network(entry({'abs': a, 'phase': rad})).branches[0].element.Z
+    forms['load_network_cartesian'] = lambda: L.load_network(entry({'real': want.real, 'imag': want.imag})).branches[0].element.Z
+    mag = 'small' if abs(a) < 1e-6 else 'large' if abs(a) > 1e6 else 'unit'
+    for name, f in forms.items():
+        k, v = attempt(f)
+        if k == 'err' or not relclose(v, want, 1e-12):
+            out.spec_fail(dict(op='to_complex', symptom='notations_disagree', form=name, magnitude=mag),
+                          f'{name} notation of {want!r} (|value| = {abs(a):.3g}, phase {deg}°) loads as {v!r}', dict(abs=a, phase_deg=deg, form=name),
+                          impl=str(v), spec=str(want))
+            return
+    out.nontrivial(('notations', mag, deg))
 
 def culprit_kinds(desc):
     """kinds whose entry, loaded alone (next to a ground resistor), raises"""
@@ -566,7 +602,7 @@ def check_load_network(ctx, out, desc, valid, origin='gen', via_file=None):
                 if f not in e: return 0
                 return intended_complex(e[f]) if spec[0][f][0] == 'cx' else e[f]
             got_a, got_b = (el.Z, el.V) if nort else (el.Y, el.I)
-            okv = core.close(got_a, meaning(spec[2]), 0.0, 1e-12) and core.close(got_b, meaning(spec[3]), 0.0, 1e-12)
+            okv = relclose(got_a, meaning(spec[2]), 1e-12) and relclose(got_b, meaning(spec[3]), 1e-12)
             if not (b.node1 == e['N1'] and b.node2 == e['N2'] and el.name == e['id'] and el.type == spec[4]
                     and nort == (spec[1] == 'N') and okv):
                 out.spec_fail(dict(op='load_network', symptom='unfaithful', kind=e['type']),
@@ -628,7 +664,7 @@ def check_inplace(ctx, out, name, t, all_):
                               f'a document whose complex notations are all well-formed is rejected: {val}', rp(t))
             else:
                 for k, w in wants.items():
-                    if w is not None and not (isinstance(val.get(k), complex) and core.close(val[k], w, 0.0, 1e-12)):
+                    if w is not None and not (isinstance(val.get(k), complex) and relclose(val[k], w, 1e-12)):
                         out.spec_fail(dict(op=name, symptom='wrong_value', notation=notation), f'notation under key {k!r} converted to a different number', rp(t),
                                       impl=str(val.get(k)), spec=str(w))
                         break
@@ -788,7 +824,7 @@ def check_generate_component(ctx, out, comp, meaning, valid, notation):
                       f'a valid {kind_s} component ({notation} notation) does not load: {v1}', comp, impl=dict(exception=v1))
         return
     want = INTENDED_C[kind_s][1](meaning)
-    okv = set(want) == set(v1.value) and all(core.close(v1.value[k], want[k], 0.0, 1e-12) for k in want)
+    okv = set(want) == set(v1.value) and all(relclose(v1.value[k], want[k], 1e-12) for k in want)
     if not (v1.type == kind_s and v1.id == comp['id'] and list(v1.nodes) == list(comp['nodes']) and okv):
         out.spec_fail(dict(op='generate_component', symptom='unfaithful', kind=kind_s, notation=notation),
                       f'loaded {kind_s} component differs from what was written', comp, impl=str(v1), spec=str(want))
@@ -827,7 +863,7 @@ def check_value_fault(ctx, out, comp, kind, fault, written):
         for x in v.value.values():
             if isinstance(x, complex): have += [x.real, x.imag]
             elif isinstance(x, (int, float)) and not isinstance(x, bool): have.append(float(x))
-        lost = [w for w in written if not any(core.close(w, h, 0.0, 1e-12) for h in have)]
+        lost = [w for w in written if not any(relclose(w, h, 1e-12) for h in have)]
         if lost:
             out.spec_fail(dict(op='generate_component', symptom='written_value_dropped', fault=fault, kind=kind),
                           f'a {kind} component with a {fault.replace("_", " ")} is accepted and the written value(s) {lost} are silently dropped', comp,
@@ -849,7 +885,7 @@ def check_circuit_text(ctx, out, comp, meaning, notation, fmt):
         return
     c = v.components[0]
     want = INTENDED_C[kind_s][1](meaning)
-    okv = set(want) == set(c.value) and all(core.close(c.value[x], want[x], 0.0, 1e-12) for x in want)
+    okv = set(want) == set(c.value) and all(relclose(c.value[x], want[x], 1e-12) for x in want)
     if not (c.type == kind_s and c.id == comp['id'] and list(c.nodes) == list(comp['nodes']) and okv):
         out.spec_fail(dict(op='circuit_deserialize', symptom='unfaithful', kind=kind_s, notation=notation),
                       f'{kind_s} component loaded from a file differs from what was written', doc, impl=str(c), spec=str(want), fmt=fmt)
@@ -948,7 +984,7 @@ def file_pairs():
         for c, (d, meaning) in zip(loaded.components, written):
             want = INTENDED_C[d['type']][1](meaning)
             if not (c.type == d['type'] and c.id == d['id'] and list(c.nodes) == list(d['nodes']) and set(want) == set(c.value)
-                    and all(core.close(c.value[k], want[k], 0.0, 1e-12) for k in want)):
+                    and all(relclose(c.value[k], want[k], 1e-12) for k in want)):
                 return False
         return True
     def net_desc(rng, i):
@@ -1104,7 +1140,9 @@ def run(ctx, out):
 
     # ---- to_complex
     rng = ctx.rng('to_complex')
-    for z in [{'abs': 2, 'phase': 30}, {'phase': 30}, {'real': 1, 'imag': 2, 'abs': 1, 'phase': 90}, {'abs': 1.5, 'phase': 90.0},
+    for z in [{'abs': 250e-12, 'phase': 60}, {'abs': 0.4e-12, 'phase': 90}, {'abs': 3.3e-15, 'phase': 45.0}, {'abs': 2.0 ** -40, 'phase': 120},
+              {'abs': 4.7e11, 'phase': 30}, {'abs': 1e-9, 'phase': 1.0471975511965976},
+              {'abs': 2, 'phase': 30}, {'phase': 30}, {'real': 1, 'imag': 2, 'abs': 1, 'phase': 90}, {'abs': 1.5, 'phase': 90.0},
               5.0, None, 'x', [1, 2], {}, {'real': 1, 'imag': None, 'abs': 1, 'phase': 0}]:
         for deg in (False, True):
             check_to_complex(ctx, out, z, deg, 'corpus')
@@ -1116,6 +1154,8 @@ def run(ctx, out):
             z = rng.choice([{**z, 'extra': 1}, {k: v for k, v in list(z.items())[:1]}, {**z, 'real': 'x'}, {**z, 'abs': None},
                             {'real': 1, 'abs': 2, 'phase': 0.5}, {'abs': 'q', 'phase': 1}, {'abs': 2, 'phase': '1'}, {'abs': 2, 'phase': None}])
         check_to_complex(ctx, out, z, rng.random() < 0.5)
+    for i in range(40 * scale):
+        check_notations_agree(ctx, out, si_value(rng) if i % 2 else num(rng), rng.choice(PHASES_DEG))
 
     # ---- load_network
     rng = ctx.rng('load_network')
@@ -1267,7 +1307,9 @@ def replay(ctx, out, rp):
     canon = rp.get('canon', {})
     inp = rp.get('input')
     op = canon.get('op')
-    if op == 'to_complex':
+    if op == 'to_complex' and canon.get('symptom') == 'notations_disagree':
+        check_notations_agree(ctx, out, inp['abs'], inp['phase_deg'])
+    elif op == 'to_complex':
         check_to_complex(ctx, out, inp['z'], inp['degree'], 'replay')
     elif op in ('load_network', 'load_network_from_json'):
         check_load_network(ctx, out, inp, True, 'replay')
